@@ -35,8 +35,8 @@ ASSUMPTIONS = [
     "output symbols",
 ]
 
-A_DEC = ["[C]", "[=C]", "[N]", "[O]", "[F]", "[Branch1]", "[=Branch1]", "[Ring1]", "[=Ring1]", "[nop]", "."]
-A_DEC2 = ["[C]", "[#C]", "[S]", "[#Branch2]", "[Branch1]", "[Ring2]", "[Ring1]", ".", "[CH1]", "[/C]"]
+A_DEC = ["[C]", "[=C]", "[N]", "[O]", "[F]", "[Branch1]", "[=Branch1]", "[Ring1]", "[=Ring1]", "[nop]", ".", "[Foo]"]
+A_DEC2 = ["[C]", "[#C]", "[S]", "[#Branch2]", "[Branch1]", "[Ring2]", "[Ring1]", ".", "[CH1]", "[/C]", "[CH4]"]
 ALPH = {"dec": A_DEC, "dec2": A_DEC2}
 RELAXED = {"?": 12}
 ATOM_TOK = re.compile(r"\[[^\]]*\]|Br|Cl|[BCNOPSFI]")
@@ -103,6 +103,17 @@ def check_decoder(w, table, r):
     try:
         m = refmodel.decode(w, table)
     except refmodel.Reject:
+        # the call is still made (a rejected attributed decode must leave no trace for the calls that follow in
+        # this long-lived worker) and must be rejected the same way with and without the flag
+        for kw in ({"attribute": True}, {}):
+            try:
+                _SF.decoder(s, **kw)
+                r.violation("accepts-outside-grammar", {"kind": "decoder", "selfies": s, "table": table},
+                            "decoder(%r, %r) returned although the model rejects a reached symbol" % (s, kw))
+            except _SF.DecoderError:
+                pass
+            except Exception as e:
+                r.violation("decoder-raises:" + type(e).__name__, {"kind": "decoder", "selfies": s, "table": table}, repr(e)[:200])
         return None
     case = {"kind": "decoder", "selfies": s, "table": table}
     try:
